@@ -26,7 +26,10 @@ AllTrue(s) == \A i \in 1..Len(s) : s[i]
 
 IdsId == [i \in 1..N |-> i]
 
-JudgeK(e) == Tag(e.k = K(e.n), "Inv.ThresholdIsCeil51")
+(* the threshold the signing side combines at (GetGroupK) is ceil(51 n / 100), and the DKG deals
+   polynomials with exactly that many coefficients: otherwise k shares do not determine the secret *)
+JudgeK(e) == Tag(e.k = K(e.n), "Inv.ThresholdIsCeil51") \o
+             Tag(e.dkgK = e.k, "Inv.DkgThresholdIsSigningThreshold")
 
 JudgeDkgStart(e) == Tag(e.k = K(e.n), "Inv.ThresholdIsCeil51")
 
